@@ -36,7 +36,13 @@ def main():
         out[name] = res
         print(name, {k: v["kind"] for k, v in res.items()}, flush=True)
     os.makedirs(os.path.join(VERIF, "build"), exist_ok=True)
-    json.dump(out, open(os.path.join(VERIF, "build", "seedall.json"), "w"), indent=1)
+    path = os.path.join(VERIF, "build", "seedall.json")
+    if only and os.path.exists(path):
+        # a partial run updates the entries it re-ran and keeps the others
+        merged = json.load(open(path))
+        merged.update(out)
+        out = merged
+    json.dump(out, open(path, "w"), indent=1)
     missed = [n for n, r in out.items() if not any(v.get("kind") == "failing-input" or v.get("kind") == "correspondence-only" for v in r.values() if isinstance(v, dict))]
     print("missed:", missed)
     return 1 if missed else 0
